@@ -288,7 +288,7 @@ def run(ctx):
             model.mc(SSET, dict(sc, Dedup="FALSE"), ctx, "SortedSet_neg", invariants=["NoRepeats"], properties=["IterAscending"],
                      expect_violation=True)
         g, _ = graphwalk.emit_graph(SSET, model.cfg_text(sc, view="View", action_constraint="Emit"), ctx, "SortedSet")
-        st = graphwalk.walk(g, SetAdapter(m, num), ctx, "SortedSet", sig_fn=sig_fn, paths_per_state=2)
+        st = graphwalk.walk(g, SetAdapter(m, num), ctx, "SortedSet", sig_fn=sig_fn, paths_per_state=2, history_ops=("clear", "popitem"))
         ctx.note("walk %s" % st)
         mc = {"MaxV": 2 if quick else 3, "Vals": "{10,20}", "MaxInit": 2 if quick else 3, "LaterWins": "TRUE"}
         num2 = Num(mask, mc["MaxV"])
@@ -297,7 +297,7 @@ def run(ctx):
             model.mc(SMAP, dict(mc, LaterWins="FALSE"), ctx, "SortedMap_neg", properties=["DictLike", "IterAscending"],
                      expect_violation=True)
         g, _ = graphwalk.emit_graph(SMAP, model.cfg_text(mc, view="View", action_constraint="Emit"), ctx, "SortedMap")
-        st = graphwalk.walk(g, MapAdapter(m, num2), ctx, "SortedMap", sig_fn=sig_fn, paths_per_state=2)
+        st = graphwalk.walk(g, MapAdapter(m, num2), ctx, "SortedMap", sig_fn=sig_fn, paths_per_state=2, history_ops=("clear", "popitem"))
         ctx.note("walk %s" % st)
     ctx.exhaustive = True
     rnd = random.Random(ctx.seed * 7919 + 9)
